@@ -92,3 +92,38 @@ Theorem C09_script_last : forall exec st cmds st1 r1 c st2 name args cmd st3 v,
   eval_script exec st (cmds ++ [c]) = (st3, Ok v).
 Proof. exact eval_script_last_value. Qed.
 Print Assumptions C09_script_last.
+
+(* ---- whole programs (Proofs/CtlProgFacts.v) ----
+   A typed statement language: expressions Lit z | Var v | Bin op a b (the 16 symbolic binary
+   operators, fully parenthesised as the checker's renderer writes them), statements
+   set v [expr {e}] | incr v k | if {c} {..} | if {c} {..} else {..} | while {c} {..} | break |
+   continue, blocks of statements one per line.  `run` is the reference big-step semantics over an
+   environment of integer variables (fuel counts nested blocks and loop iterations).  For every
+   well-formed program, every state whose current scope holds the environment (`Rel`), with the
+   standard commands bound (`cmds_ok`) and room below the nesting limit: whenever the reference run
+   finishes, the interpreter on the rendered text — for every sufficiently large fuel — returns
+   the corresponding result (value / break / continue / error with the message; at the top level a
+   stray break or continue becomes the "outside of a loop" error: `finish`), a state that again
+   holds the final environment, and unchanged command table, nesting level and limit.
+   Not covered (tested only): procedures, for, foreach, catch, string-valued variables, the
+   indentation the checker's renderer puts inside nested bodies, and the link between this typed
+   language and the checker's term encoding (`stmt9`). *)
+From Molt Require Proofs.CtlProgFacts.
+From Molt Require Import Model.Unicode Model.Interp.
+
+Theorem C09_whole_program : forall n p en en' o st,
+  CtlProgFacts.run n en p = (en', o) -> o <> CtlProgFacts.OFuel -> CtlProgFacts.wf_block p = true ->
+  CtlProgFacts.Rel en st -> CtlProgFacts.cmds_ok st ->
+  (i_levels st + 1 + CtlProgFacts.depth_block p <= i_limit st)%N ->
+  exists F, forall fuel, (F <= fuel)%nat ->
+  exists st' r, eval std_uni fuel st (CtlProgFacts.render_block p) = (st', r) /\
+                CtlProgFacts.res_ok (CtlProgFacts.finish (i_levels st =? 0)%N o) r /\
+                CtlProgFacts.Rel en' st' /\ CtlProgFacts.same_ctl st st'.
+Proof. exact CtlProgFacts.run_agrees. Qed.
+Print Assumptions C09_whole_program.
+
+(* the hypotheses hold of a fresh interpreter with the empty environment *)
+Theorem C09_whole_program_nonvacuous :
+  CtlProgFacts.cmds_ok interp_new /\ CtlProgFacts.Rel [] interp_new.
+Proof. exact (conj CtlProgFacts.cmds_ok_new CtlProgFacts.Rel_new). Qed.
+Print Assumptions C09_whole_program_nonvacuous.
